@@ -31,13 +31,12 @@ def gen_case(rnd, i, thorough):
         rnd.shuffle(cs)
         case["params"] = {"candidates": cs}
         if model == "BallotSimplex":
-            k = rnd.choice([2, 4, 8])
-            pt = [rnd.randint(1, k) for _ in cs]  # strictly positive: a zero entry makes every complete ranking impossible
-            # dyadic so that the float sum is exactly 1.0
-            tot = sum(pt)
-            p2 = [x / tot for x in pt]
-            if sum(p2) != 1.0:
-                p2 = [1.0 if j == 0 else 0.0 for j in range(n)]
+            # strictly positive dyadic entries (multiples of 1/16) so that the float sum is exactly 1.0; a zero entry
+            # would make every complete ranking impossible and is not a valid point for this model
+            parts = [1] * n
+            for _ in range(16 - n):
+                parts[rnd.randrange(n)] += 1
+            p2 = [x / 16 for x in parts]
             case["params"]["point"] = dict(zip(cs, p2))
         if model in ("Spatial", "ClusteredSpatial"):
             case["params"]["dim"] = rnd.choice([1, 2, 3])
